@@ -122,6 +122,11 @@ def decide(name, decls, assertions, cases, timeout):
         mscript = M.smt_script(decls, list(cases[k]) + assertions, None, "cvc5").replace("(check-sat)", "(check-sat)\n(get-model)")
         _v, mout, _t = run_solver([Z3, "-in"], mscript, timeout)
         res["model"] = ("case %d: %s\n" % (k, " ".join(cases[k]))) + mout[:3000]
+        # the counterexample artefact: the query (regenerated from the current MIR) restricted to the
+        # failing case, with the model as a comment; `bin/check <ID> --replay <file>` re-decides it
+        # with both solvers (a native replay is impossible: the functions are crate-private)
+        res["replay_script"] = M.smt_script(decls, list(cases[k]) + assertions, None, "cvc5") + \
+            "".join("; " + l + "\n" for l in res["model"].split("\n")[:80])
     elif "unsat" in verdicts and "sat" not in verdicts and verdicts <= {"unsat", "timeout", "unknown"}:
         res["status"] = "pass"
         res["note"] = "decided by one solver only (z3=%s cvc5=%s)" % (z, c)
@@ -332,7 +337,13 @@ def main(tier="quick", logdir=None, select=""):
         vectors_ok = 0
     out = []
     for r in results:
-        out.append({"harness": "mir2smt::" + r["query"], "engine": "mir->smt (z3 + cvc5)", "status": r["status"],
+        rp = None
+        if r.get("replay_script"):
+            rdir = os.path.join(os.environ.get("VERIF_REPLAY_DIR", os.path.join(os.path.dirname(os.path.dirname(HERE)), "replays")), "mir2smt")
+            os.makedirs(rdir, exist_ok=True)
+            rp = os.path.join(rdir, r["query"] + ".smt2")
+            open(rp, "w").write("; replay of an engine-M counterexample: query %s\n" % r["query"] + r["replay_script"])
+        out.append({"replay_path": rp, "harness": "mir2smt::" + r["query"], "engine": "mir->smt (z3 + cvc5)", "status": r["status"],
                     "why": r.get("why", r.get("model", "")), "wall_s": round(r.get("z3_s", 0) + r.get("cvc5_s", 0), 2),
                     "solver_time_s": round(r.get("z3_s", 0) + r.get("cvc5_s", 0), 2), "checks": 1,
                     "success": 1 if r["status"] == "pass" else 0, "unreachable": 0, "covers": [], "stubs": [],
@@ -347,3 +358,18 @@ if __name__ == "__main__":
     for r in res:
         print("%-14s %-55s %6.2fs %s" % (r["status"], r["harness"], r["wall_s"], r["why"][:200].replace("\n", " ")))
     print(summ)
+
+
+def replay_smt(path):
+    """`--replay` for an engine-M counterexample: the named query is REGENERATED from /repo's current
+    source and decided again by both solvers (the stored script is the evidence of the original
+    run; the functions are crate-private, so there is no native replay).  True = still violated."""
+    import re as _re
+    first = open(path).readline()
+    m = _re.search(r"query (\S+)", first)
+    if not m:
+        return False
+    res, _s = main("quick", None, m.group(1))
+    for r in res:
+        print("replay %s: %s %s" % (r["harness"], r["status"], r["why"][:300].replace("\n", " ")))
+    return any(r["status"] == "fail" for r in res)
